@@ -7,9 +7,9 @@ PLAN = {
     "C01": dict(
         quick=[("lit_finish_exit", dict(shuffle=8)), ("lit_foreign_finish", dict(cap=1000, shuffle=6)), ("lit_child_other", dict(cap=1000, shuffle=6)), "lit_local_scope",
                ("lit_spawn_sweep", dict(cap=1000, shuffle=6)), ("par4", dict(shuffle=4)), ("over5_d", dict(cap=600)),
-               ("stress:tree4", dict(rounds=200, threads=6)), ("stress:over5_d", dict(rounds=150, threads=4, cfg=dict(K=2)))],
+               ("stress:tree4", dict(rounds=200, threads=6)), ("stress:over5_d", dict(rounds=150, threads=4, cfg=dict(K=2))), "burst:9000"],
         thorough=["lit_finish_exit", "lit_foreign_finish", "lit_child_other", "lit_local_scope", "lit_attach_other", "lit_spawn_sweep", "par4", "par5",
-                  "over5_d", "tree5", ("sim_par3", dict(cap=6000))],
+                  "over5_d", "tree5", ("sim_par3", dict(cap=6000)), ("stress:tree4", dict(rounds=2000, threads=6)), "burst:9000"],
         vacuity=[("lit_finish_exit", ["FixRecv"])],
     ),
     "C02": dict(
@@ -19,8 +19,8 @@ PLAN = {
     ),
     "C03": dict(
         quick=[("lit_finish_exit_c", dict(shuffle=8)), ("lit_foreign_finish_c", dict(cap=1000, shuffle=6)), ("lit_child_other_c", dict(cap=1000, shuffle=6)), ("par4_c", dict(shuffle=4)),
-               ("att4_c", dict(cap=800)), ("tree4_c", dict(cap=1200)), ("stress:tree4_c", dict(rounds=200, threads=6))],
-        thorough=["lit_finish_exit_c", "lit_foreign_finish_c", "lit_child_other_c", "par4_c", "par5_c", "att4_c", "tree4_c", ("sim_par3_c", dict(cap=6000))],
+               ("att4_c", dict(cap=800)), ("tree4_c", dict(cap=1200)), ("stress:tree4_c", dict(rounds=200, threads=6)), "burstc:9000"],
+        thorough=["lit_finish_exit_c", "lit_foreign_finish_c", "lit_child_other_c", "par4_c", "par5_c", "att4_c", "tree4_c", ("sim_par3_c", dict(cap=6000)), ("stress:tree4_c", dict(rounds=2000, threads=6)), "burstc:9000"],
         vacuity=[("lit_finish_exit_c", ["FixRecv"])],
     ),
     "C04": dict(
@@ -70,15 +70,15 @@ PLAN = {
         vacuity=[("ctx4", [], "ctx-last")],
     ),
     "C17": dict(
-        quick=[("lc5", dict(cap=1500)), ("lc_open", dict(cap=1000)), ("scope_open", dict(cap=3000)), ("torec5", dict(cap=2000)), ("lc_multi_q", dict(cap=1500))],
-        thorough=["lc5", "lc_open", "scope_open", "torec5", "lc_multi_q", ("lc_multi", dict(cap=20000, timeout=1200)), ("lc6", dict(cap=20000, timeout=2400))],
+        quick=[("lc5", dict(cap=1500)), ("lc_open", dict(cap=1000)), ("scope_open", dict(cap=3000)), ("torec5", dict(cap=2000)), ("lc_multi_q", dict(cap=1500)), ("lc_multi_p", dict(cap=2000))],
+        thorough=["lc5", "lc_open", "scope_open", "torec5", "lc_multi_q", "lc_multi_p", ("lc_multi", dict(cap=20000, timeout=1200)), ("lc6", dict(cap=20000, timeout=2400))],
         vacuity=[("lc_multi_q", [], "push-once")],
     ),
 }
 PLAN["C18"] = dict(
     level="exploration",
-    quick=[("time_tree4", dict(cap=600)), ("time_lc5", dict(cap=400)), ("time_att4", dict(cap=400)), ("lc_open", dict(cap=500)), ("scope_open", dict(cap=3000))],
-    thorough=[("time_tree4", dict(cap=2700)), ("time_lc5", dict(cap=4000)), ("time_att4", dict(cap=2200)), "lc_open", "scope_open"],
+    quick=[("time_tree4", dict(cap=600)), ("time_lc5", dict(cap=400)), ("time_att4", dict(cap=400)), ("time_smp4", dict(cap=800)), ("lc_open", dict(cap=500)), ("scope_open", dict(cap=3000))],
+    thorough=[("time_tree4", dict(cap=2700)), ("time_lc5", dict(cap=4000)), ("time_att4", dict(cap=2200)), "time_smp4", "lc_open", "scope_open"],
 )
 PLAN["C13"] = dict(
     quick=["poll_fut_c", "poll_fut_d", "poll_eop", "poll_fut2_c", "poll_under_lp", ("poll_hold_c", dict(shuffle=8, shuffle_programs=400)), "poll_hold_d"],
